@@ -377,6 +377,76 @@ def coroutine_invariants(ctx, only=None):
                      "got: %s" % (trigger, got))
 
 
+def awaitable_results(ctx, only=None):
+    """The body's RESULT is handed on as it is, also when it is itself awaitable (a launcher returning a future / task /
+    coroutine / an object with __await__): sync and async renderings give the caller the very object the body returned,
+    and the postconditions judge that object - nothing awaits it on the caller's behalf."""
+    import icontract
+    from vf.progmodel.run import drive
+
+    class Later:
+        def __init__(self):
+            self.awaited = 0
+
+        def __await__(self):
+            self.awaited += 1
+            return "awaited value"
+            yield
+
+    async def helper():
+        return "from coroutine"
+
+    for kind in ("object with __await__", "coroutine object"):
+        for deco in ("require", "ensure"):
+            if only and only != [kind, deco]:
+                continue
+            views = {}
+            for is_async in (False, True):
+                made = []
+
+                def make():
+                    obj = Later() if kind.startswith("object") else helper()
+                    made.append(obj)
+                    return obj
+
+                if is_async:
+                    async def f(x):
+                        return make()
+                else:
+                    def f(x):
+                        return make()
+                seen = []
+                if deco == "require":
+                    g = icontract.require(lambda x: x > 0)(f)
+                else:
+                    g = icontract.ensure(lambda result: seen.append(result) or True)(f)
+                try:
+                    r = g(1)
+                    if is_async:
+                        r = drive(r)
+                    same = r is made[0]
+                    judged = (not seen) or seen[0] is made[0]
+                    awaited = getattr(made[0], "awaited", 0)
+                    out = ("ret", "the body's object" if same else repr(r)[:60], "judged the body's object" if judged else "judged %r" % (seen[0],),
+                           "awaited %d times" % awaited)
+                except BaseException as e:  # noqa
+                    out = ("exc", type(e).__name__, str(e)[:100])
+                finally:
+                    for o in made:
+                        if hasattr(o, "close"):
+                            o.close()
+                views["async def" if is_async else "def"] = out
+            want = ("ret", "the body's object", "judged the body's object", "awaited 0 times")
+            label = "body returning a %s under %s" % (kind, deco)
+            ctx.case(["awaitable-result", kind, deco], True, sample={"family": "awaitable-result", "directed": label, "views": {k: list(v) for k, v in views.items()}})
+            ctx.count("awaitable-results")
+            for rendering, out in views.items():
+                if out != want:
+                    ctx.fail("awaitable-result|%s|%s" % (rendering.replace(" ", "-"), deco), {"family": "awaitable-result", "directed": [kind, deco]},
+                             "%s, %s: expected %r, got %r" % (label, rendering, want, out))
+                    break
+
+
 def signature_pairs(ctx, tier):
     """Family (E): the same signature and call shape (positional-only / keyword-only / variadic parameters, defaults,
     surplus keywords incl. names equal to positional-only parameters) as `def` and as `async def`: the precondition,
@@ -453,11 +523,17 @@ def run(ctx, tier, seed, shard, nshards):
         signature_pairs(ctx, tier)
         colour_triples(ctx)
         coroutine_invariants(ctx)
+        awaitable_results(ctx)
 
 
 def replay(ctx, case):
     warnings.simplefilter("ignore", RuntimeWarning)
     fam = case.get("family", "pair")
+    if fam == "awaitable-result":
+        before = ctx.evaluations
+        awaitable_results(ctx, only=case["directed"])
+        ctx.evaluations = before + 1
+        return
     if fam == "coroutine-invariant":
         before = ctx.evaluations
         coroutine_invariants(ctx, only=case["directed"])
